@@ -56,7 +56,7 @@ CHECKS = {
     ),
     "C13": (
         "exhaustive enumeration of interruption points, STOP/END placements and execute-quantum schedules per program of a bounded family, compared with the quantum-1 baseline; macro-step confluence on the state digest",
-        "For every program of the family (12 curated + the C01 space at small N) an interrupt is injected after every single-instruction call (also at a pending prompt), with and without a direct PRINT, then CONT; STOP and END are inserted before every statement; every uniform quantum, all two-phase schedules and all short mixed schedules are run; output and final variables must equal the uninterrupted quantum-1 run. Exhaustive over the stated schedules for the stated programs.",
+        "For every program of the family (16 curated + the C01 space at small N) an interrupt is injected after every single-instruction call (also at a pending prompt), with and without a direct PRINT, then CONT; STOP and END are inserted before every statement; every uniform quantum, all two-phase schedules and all short mixed schedules are run; output and final variables must equal the uninterrupted quantum-1 run. Exhaustive over the stated schedules for the stated programs.",
         "Differential oracle against the quantum-1 run of the same implementation; the forced newline of BREAK/errors, READY and a re-issued prompt are normalised; programs using TRON are excluded from the CONT comparisons.",
         "DESIGN.md §3 C13",
     ),
